@@ -2,7 +2,7 @@
    The model is of the repaired code (binary read requests exactly the composite line width). *)
 From Coq Require Import String ZArith NArith List Bool Arith.
 From Coq Require Import Floats.SpecFloat.
-From Cfi Require Import Glue.Sx Py.PyStr Py.PyNum Py.PyBits Py.PyDate Model.Field Model.Line Model.Reader.
+From Cfi Require Import Glue.Sx Py.PyStr Py.PyNum Py.PyBits Py.PyDate Py.PyRe Model.Field Model.Line Model.Reader.
 From Cfi Require Import Proofs.FieldProofs Proofs.LineProofs Proofs.ReaderProofs Proofs.RegProofs Proofs.DelimProofs.
 Import ListNotations.
 
@@ -63,3 +63,17 @@ Theorem C10_refuted_binary_request :
   exists rs types cs, Forall2 (fun i c => length c = composite_size (nth_reg rs i)) types cs /\
     fst (consume_all false Binary rs types (concat cs)) <> cs.
 Proof. exact stream_binary_as_found_misaligned. Qed.
+
+(* reg_wf is satisfiable for an identifier that is a regular expression: IDENTIFIER = "A." is written as the text "A." (Register.write
+   puts the attribute itself into the identifier columns) and finds it; IDENTIFIER = "^AB" is written as "^AB" and does not find
+   it -- such a register is not re-readable (DESIGN.md section 12) *)
+Example C10_reg_wf_regex :
+  reg_wf {| r_ident := s2l "A."%string; r_digits := 3; r_fields := [ {| kind := KInt; size := 4; start := 3 |} ]; r_delim := None;
+            r_pat := Some (RSeq (re_chr 65%N) (RChr CAny)) |}.
+Proof.
+  unfold reg_wf. cbn [r_ident r_digits r_fields r_pat]. split; [cbn; repeat constructor|].
+  split; [repeat constructor|]. vm_compute. reflexivity.
+Qed.
+Example C10_regex_identifier_not_rereadable :
+  re_search (RSeq RBol (re_lit (s2l "AB"%string))) (ljust 4 (s2l "^AB"%string)) = false.
+Proof. vm_compute. reflexivity. Qed.
